@@ -7,8 +7,8 @@ for d in sorted(glob.glob(os.path.join(ROOT, 'seeded', 'C*-*'))):
     m = json.load(open(os.path.join(d, 'meta.json')))
     name = os.path.basename(d)
     summ = re.sub(r'\s+', ' ', str(m.get('summary', ''))).replace('|', '/')
-    if len(summ) > 230:
-        summ = summ[:227] + '...'
+    if len(summ) > 170:
+        summ = summ[:167] + '...'
     det = m.get('checks_run', {})
     caught = m.get('caught_by', [])
     how = []
